@@ -39,6 +39,8 @@ type World struct {
 	Images map[string]fixture
 	// HyperShift: the environment reports a HyperShift management cluster (EnableHyperShift)
 	HyperShift bool
+	// GoneSlices: stand-alone ObjectSlices a user deleted / has not created yet (the walker restores them later)
+	GoneSlices map[Key]*unstructured.Unstructured
 	// TemplateBase: the family of template variants the user's template edits of this scenario choose from
 	TemplateBase int
 }
@@ -531,6 +533,7 @@ func (w *World) Reset(name string) {
 	w.Dyn.Reset()
 	w.SetForceAdoption(false)
 	w.TemplateBase = 0
+	w.GoneSlices = nil
 	w.HyperShift = false
 	w.BuildControllers()
 	w.Emit(Event{Actor: "sim", Ev: "Reset", Key: "-", Args: map[string]any{"scenario": name}})
